@@ -370,7 +370,15 @@ func (p *Proxy) handleConnectRequest(ctx *Context, req *http.Request, session *S
 			// A modifier hijacking the session from here on takes over the
 			// decrypted connection, not the raw one underneath it.
 			session.setConn(nconn, brw)
-			return p.handle(ctx, nconn, brw)
+			// Serve the decrypted connection here until it is done: the caller's
+			// loop would go on with the raw connection, and requests after the
+			// first would no longer be recognised as coming from a TLS connection.
+			for {
+				nconn.SetDeadline(time.Now().Add(p.timeout))
+				if err := p.handle(ctx, nconn, brw); isCloseable(err) {
+					return err
+				}
+			}
 		}
 
 		// Prepend the previously read data to be read again by http.ReadRequest.
